@@ -3,6 +3,7 @@
 package jp
 
 import (
+	"strconv"
 	"unicode/utf8"
 )
 
@@ -92,4 +93,18 @@ func AppendString(buf []byte, s string, delim byte) []byte {
 		buf = append(buf, s[start:]...)
 	}
 	return append(buf, delim)
+}
+
+// appendFloat appends a float in a form that is parsed as a float and not as
+// an integer, a whole number gets a fraction of zero.
+func appendFloat(buf []byte, f float64) []byte {
+	start := len(buf)
+	buf = strconv.AppendFloat(buf, f, 'g', -1, 64)
+	for _, b := range buf[start:] {
+		switch b {
+		case '.', 'e', 'N', 'I': // fraction, exponent, NaN, or Inf
+			return buf
+		}
+	}
+	return append(buf, '.', '0')
 }
